@@ -361,8 +361,17 @@ class HarnessError(Exception):
     pass
 
 
+def build_proxy_harness(timeout=2400):
+    """the runner with the proxy leg (feature `proxy`: s3s-aws + the AWS SDK crates of the repository's lock file)"""
+    with Lock("cargo"):
+        rc, out = sh(["cargo", "build", "--offline", "--quiet", "--features", "proxy", "--bin", "proxy_runner"], cwd=HARNESS, timeout=timeout)
+        if rc != 0:
+            raise HarnessError("proxy harness build failed:\n" + tail(out, 40))
+    return os.path.join(TARGET, "debug", "proxy_runner")
+
+
 def run_impl(suite, cases, timeout=1800):
-    exe = build_harness()
+    exe = build_proxy_harness() if suite == "proxy" else build_harness()
     data = "\n".join(json.dumps(c) for c in cases) + "\n"
     p = subprocess.run([exe, suite], input=data.encode(), stdout=subprocess.PIPE, stderr=subprocess.PIPE,
                        timeout=timeout)
